@@ -42,3 +42,52 @@ def count(root):
         stack.append(n.left)
         stack.append(n.right)
     return k
+
+
+def all_nodes(root):
+    """Pre-order list of node objects by links (each object once)."""
+    out = []
+    seen = set()
+    stack = [root]
+    while stack:
+        n = stack.pop()
+        if n is None or id(n) in seen:
+            continue
+        seen.add(id(n))
+        out.append(n)
+        stack.append(n.right)
+        stack.append(n.left)
+    return out
+
+
+def snapshot(nodes):
+    """Observable state of a fixed list of node objects (identity of links, payload, flags)."""
+    snap = []
+    for n in nodes:
+        classes = getattr(n, "classes", None)
+        snap.append((
+            id(n.left), id(n.right), id(n.parent),
+            type(n).__name__,
+            repr(getattr(n, "value", None)), type(getattr(n, "value", None)).__name__,
+            getattr(n, "identifier", None),
+            getattr(n, "id", None),
+            getattr(n, "child_on_left", None),
+            tuple(classes) if isinstance(classes, list) else classes,
+            getattr(n, "_changed", None),
+            getattr(n, "r_index", None),
+        ))
+    return snap
+
+
+SNAP_FIELDS = ("left", "right", "parent", "class", "value", "value_type", "identifier", "id", "child_on_left",
+               "classes", "_changed", "r_index")
+
+
+def snapshot_diff(a, b):
+    for i, (x, y) in enumerate(zip(a, b)):
+        if x != y:
+            fields = [SNAP_FIELDS[k] for k in range(len(x)) if x[k] != y[k]]
+            return f"node #{i} (pre-order) changed fields {fields}"
+    if len(a) != len(b):
+        return "node count changed"
+    return None
